@@ -36,12 +36,12 @@ theorem C14_apply_deterministic (w1 w2 : World) (q1 q2 : QueryId) (v : Json) (e1
     (g1 : w1.env e1 = some env) (g2 : w2.env e2 = some env) :
     (w1.step (.apply q1 v)).2 = (w2.step (.apply q2 v)).2 := Proofs.apply_deterministic w1 w2 q1 q2 v e1 e2 ast env h1 h2 g1 g2
 
-/-- History irrelevance: after ANY finite history that registers nothing on environment `e`,
-a query compiled on `e` before the history gives exactly the outcome it gave before. -/
+/-- History irrelevance: after ANY finite history that neither registers on nor configures
+environment `e`, a query compiled on `e` before the history gives exactly the outcome it gave before. -/
 def C14_history_statement : Prop :=
   ∀ (w : World) (ops : List Op) (q : QueryId) (e : EnvId) (ast : Query) (v : Json),
     w.WF → w.query q = some (e, ast) →
-    (∀ op ∈ ops, ∀ name f, op ≠ .register e name f) →
+    (∀ op ∈ ops, (∀ name f, op ≠ .register e name f) ∧ (∀ md lo hi, op ≠ .configure e md lo hi)) →
     ((w.run ops).step (.apply q v)).2 = (w.step (.apply q v)).2
 
 theorem C14_history : C14_history_statement := Proofs.history_irrelevant
@@ -54,6 +54,96 @@ theorem C14_frame_register (w : World) (e e' : EnvId) (name : Str) (f : Func) (h
 
 theorem C14_frame_newEnv (w : World) (cfg : Env) (e : EnvId) (hw : w.WF) (h : e < w.envs.length) :
     ((w.step (.newEnv cfg)).1).env e = w.env e := Proofs.frame_newEnv w cfg e hw h
+
+/-! ### reconfiguration: the limits are attributes read at every use
+
+`env.max_recursion_depth = n` (and the two index bounds) may be assigned at any time.
+The model reads them from the environment's CURRENT configuration at every compile and
+every evaluation; an implementation that caches a limit on first use violates
+`C14_configure_takes_effect` / `C14_history_configure` (see the `example` below). -/
+
+/-- reconfiguring one environment leaves every other environment (the module-level
+default environment included) untouched -/
+theorem C14_frame_configure (w : World) (e e' : EnvId) (md lo hi : Int) (h : e' ≠ e) :
+    ((w.step (.configure e md lo hi)).1).env e' = w.env e' := Proofs.frame_configure w e e' md lo hi h
+
+/-- reconfiguring leaves the compiled queries (ids, bindings, ASTs) untouched -/
+theorem C14_configure_queries (w : World) (e : EnvId) (md lo hi : Int) :
+    ((w.step (.configure e md lo hi)).1).queries = w.queries := Proofs.configure_queries w e md lo hi
+
+/-- what `configure` does to `e` itself: exactly the three limits change; registry and mode stay -/
+theorem C14_configure_env (w : World) (e : EnvId) (md lo hi : Int) (env : Env) (g : w.env e = some env) :
+    ((w.step (.configure e md lo hi)).1).env e =
+      some { env with maxDepth := md, minIdx := lo, maxIdx := hi } := Proofs.configure_env w e md lo hi env g
+
+/-- the limits in force are the ones configured NOW, also for a query compiled BEFORE the change -/
+theorem C14_configure_takes_effect (w : World) (e : EnvId) (md lo hi : Int) (q : QueryId) (ast : Query)
+    (v : Json) (env : Env) (hq : w.query q = some (e, ast)) (he : w.env e = some env) :
+    ((w.step (.configure e md lo hi)).1.step (.apply q v)).2 =
+      Out.ofOutcome (Api.queryFind { env with maxDepth := md, minIdx := lo, maxIdx := hi } ast v) :=
+  Proofs.configure_takes_effect w e md lo hi q ast v env hq he
+
+theorem C14_configure_takes_effect_envFind (w : World) (e : EnvId) (md lo hi : Int) (s : Str)
+    (v : Json) (env : Env) (he : w.env e = some env) :
+    ((w.step (.configure e md lo hi)).1.step (.envFind e s v)).2 =
+      Out.ofOutcome (Api.envFind { env with maxDepth := md, minIdx := lo, maxIdx := hi } s v) :=
+  Proofs.configure_takes_effect_envFind w e md lo hi s v env he
+
+theorem C14_configure_takes_effect_compile (w : World) (e : EnvId) (md lo hi : Int) (s : Str)
+    (env : Env) (he : w.env e = some env) :
+    ((w.step (.configure e md lo hi)).1.step (.compile e s)).2 =
+      (match Impl.compile { env with maxDepth := md, minIdx := lo, maxIdx := hi } s with
+       | .ok _ => Out.compiled w.queries.length
+       | .error err => Out.raised err.kind) :=
+  Proofs.configure_takes_effect_compile w e md lo hi s env he
+
+/-- General history irrelevance: after ANY finite history (registrations and reconfigurations
+of `e` included) the outcome of a query bound to `e` depends on the history ONLY through
+`e`'s current configuration. -/
+def C14_history_configure_statement : Prop :=
+  ∀ (w : World) (ops : List Op) (q : QueryId) (e : EnvId) (ast : Query) (v : Json) (env' : Env),
+    w.query q = some (e, ast) → (w.run ops).env e = some env' →
+    ((w.run ops).step (.apply q v)).2 = Out.ofOutcome (Api.queryFind env' ast v)
+
+theorem C14_history_configure : C14_history_configure_statement := Proofs.history_configure
+
+/-- ... and that configuration exists (the statement above is not vacuous): environments are never deleted -/
+theorem C14_history_env_exists (w : World) (ops : List Op) (q : QueryId) (e : EnvId) (ast : Query)
+    (hw : w.WF) (hq : w.query q = some (e, ast)) : ∃ env', (w.run ops).env e = some env' :=
+  Proofs.run_env_exists w ops q e ast hw hq
+
+/-- a history that neither registers on nor configures `e` leaves `e`'s configuration alone;
+with `C14_history_configure` this gives `C14_history` back (`Proofs.history_irrelevant_of_configure`) -/
+theorem C14_history_env (w : World) (ops : List Op) (e : EnvId) (hw : w.WF) (hlt : e < w.envs.length)
+    (hops : ∀ op ∈ ops, (∀ name f, op ≠ .register e name f) ∧ (∀ md lo hi, op ≠ .configure e md lo hi)) :
+    (w.run ops).env e = w.env e := Proofs.run_env w ops e hw hlt hops
+
+/-- well-formedness is preserved by every operation, `configure` included -/
+theorem C14_step_WF (w : World) (op : Op) (hw : w.WF) : (w.step op).1.WF := Proofs.step_WF w op hw
+
+section Example
+/-- one environment (recursion limit 5), `$..*` compiled on it as query 0 -/
+private def w0 : World := { envs := [(0, { maxDepth := 5 })], queries := [(0, 0, [.desc [.wild]])] }
+/-- `[[[1]]]`: containers nested 3 deep -/
+private def doc : Json := .arr [.arr [.arr [.num (Num.ofInt 1)]]]
+
+private def Out.isNodes (n : Nat) : Out → Bool
+  | .nodes ns => ns.length = n
+  | _ => false
+private def Out.isRaised (k : ErrKind) : Out → Bool
+  | .raised k' => k' = k
+  | _ => false
+
+/-- the same compiled query, the same document: 3 nodes under limit 5; `RecursionError` after
+`configure` to limit 2 (a cached limit would still answer 3 nodes); 3 nodes again after
+`configure` back to 5 -/
+example :
+    Out.isNodes 3 (w0.step (.apply 0 doc)).2 = true ∧
+    (let w1 := (w0.step (.configure 0 2 0 10)).1
+     Out.isRaised .recursion (w1.step (.apply 0 doc)).2 = true ∧
+     (let w2 := (w1.step (.configure 0 5 0 10)).1
+      Out.isNodes 3 (w2.step (.apply 0 doc)).2 = true)) := by decide +kernel
+end Example
 
 /-- compiling the same text again gives a query with identical behaviour -/
 theorem C14_recompile (w : World) (e : EnvId) (s : Str) (hw : w.WF) (q1 q2 : QueryId)
